@@ -382,6 +382,8 @@ class Engine:
             if len(v.ty.elts) != n:
                 raise OutOfSubset("unpack arity at line %s" % node.lineno)
             return [Sym(v.ty.get(v.term, i), v.ty.elts[i]) for i in range(n)]
+        if isinstance(v, Sym) and hasattr(v.ty, "unpack_"):
+            return v.ty.unpack_(v.term, n)
         raise OutOfSubset("cannot unpack %r at line %s" % (v, node.lineno))
 
     def x_If(self, s, env):
